@@ -420,8 +420,11 @@ func c16impl(c *core.Ctx, im *ssa.Function) {
 			if s, ok := ins.(*ssa.Send); ok {
 				send = s
 			}
-			if call, ok := ins.(*ssa.Call); ok && core.IsBuiltin(&call.Call, "close") {
-				closeIns = ins
+			// close(ch) after the loop, or `defer close(ch)` registered once (it runs when the producer returns, after the loop)
+			if ci, ok := ins.(ssa.CallInstruction); ok && core.IsBuiltin(ci.Common(), "close") {
+				if _, isGo := ins.(*ssa.Go); !isGo {
+					closeIns = ins
+				}
 			}
 		})
 		ok, detail := false, "producer does not send each element once and then close the job channel"
@@ -438,7 +441,7 @@ func c16impl(c *core.Ctx, im *ssa.Function) {
 				}
 				return 0
 			}, nil)
-			sameCh := core.Path(send.Chan) == core.Path(closeIns.(*ssa.Call).Call.Args[0])
+			sameCh := core.Path(send.Chan) == core.Path(closeIns.(ssa.CallInstruction).Common().Args[0])
 			// the loop ranges over the captured list
 			overList := false
 			core.Instrs(producer, func(ins ssa.Instruction) {
